@@ -745,6 +745,15 @@ func evalConn(tb ev.TB, c connCase, base *baseline, shared *fixture) {
 	}
 	fx.mu.Lock()
 	hit, negotiated := p.hit, p.version
+	if hit && p.frame != nil && len(p.frame) != base.frame.Len {
+		// judge by the frame that was actually cut
+		fi := frameInfo{Len: len(p.frame), Fields: p.fields}
+		if c.TKey == 1 {
+			fi.Marks = fetchMarks(p.frame, p.fields)
+		}
+		base = &baseline{frame: fi, res: base.res, model: base.model}
+		ev.Count("frame_differs_from_probe", 1)
+	}
 	fx.mu.Unlock()
 	if !hit {
 		tb.Fatalf("harness: %s did not send %s #%d", c.Op, apiName(c.TKey), c.TIdx)
